@@ -14,7 +14,9 @@ LEVEL_TEXT = ("The Lean mirror of Resolver.glob (pattern translation to the thre
               "interleaved ignorecase flags and sequences of more than 20 distinct patterns (eviction).")
 LEVEL_NOTE = ("After the fix: commits for D4 ('..' dead end below '**' swallowed by an enclosing wildcard), D6 (identity de-dup) and D8 "
               "(ChildResolverError for an existing child when the rest of the pattern matched nothing). Trusted: Lean kernel, standard "
-              "axioms; the mirror; CPython's re for the fragment '.*', '.', escaped literal with flags (?ms) and IGNORECASE on ASCII.")
+              "axioms; the mirror; CPython's re for the fragment '.*', '.', escaped literal with flags (?ms), and IGNORECASE / str.upper() on the model's alphabet "
+              "(ASCII plus the 14 letters of Str.caseTable, among them the KELVIN, ANGSTROM and OHM signs on which the two foldings differ; "
+              "the table is compared with the running interpreter through the library by the `casetable` case of every run).")
 MODULES = ['Anytree.Props.C08', 'Anytree.Props.C08b']
 THEOREMS = [
     ("Anytree.Props.C08.match_iff_WMatch", "full"),
@@ -32,6 +34,18 @@ THEOREMS = [
     ("Anytree.Props.C08.denote_nodup", "full"),
     ("Anytree.Props.C08.denote_leading", "full"),
     ("Anytree.Props.C08.literalUnique_of_siblingUnique", "full"),
+    ("Anytree.Props.C08.literalUnique_of_siblingUniqueRe", "full"),
+    ("Anytree.Props.C08.globStrict_ok_eq_denote_of_siblingUniqueRe", "full"),
+    ("Anytree.Props.C08.siblingUniqueRe_iff", "full"),
+    ("Anytree.CaseFold.caseRegular_regularAlphabet", "full"),
+    ("Anytree.CaseFold.caseRegular_ascii", "full"),
+    ("Anytree.CaseFold.signs_irregular", "full"),
+    ("Anytree.CaseFold.not_caseRegular_alphabet", "full"),
+    ("Anytree.Spec.caseAgree_of_regular", "full"),
+    ("Anytree.Spec.caseAgree_of_ascii", "full"),
+    ("Anytree.Props.C08b.matchPure_eq_cmp_ascii", "full"),
+    ("Anytree.Props.C08b.glob_eq_get_ascii", "full"),
+    ("Anytree.Props.C08b.glob_eq_get_caseSensitive", "full"),
     ("Anytree.Props.C08b.matchPure_eq_cmp", "full"),
     ("Anytree.Props.C08b.literal_matches_itself", "full"),
     ("Anytree.Props.C08b.cmp_trans", "full"),
@@ -41,10 +55,10 @@ THEOREMS = [
     ("Anytree.Props.C08b.glob_error_of_get_error", "full"),
     ("Anytree.Props.C08b.get_of_glob", "full"),
 ]
-NOT_COVERED = ['strict mode returns the relaxed list (or raises) is proved for sibling-unique names - the scope the property gives strict mode (duplicates among siblings are quantified for relaxed mode only); with duplicate sibling names behind a wildcard strict glob can return a proper sub-list without raising (globStrict_ok_subset_denote is what holds then; witness r->[a->[b], a], pattern **/a/b)']
+NOT_COVERED = ['ignorecase on characters outside the model alphabet (ASCII + Str.caseTable) is CPython case mapping and not modelled; glob-vs-get agreement carries CaseAgree (str.upper() and re.IGNORECASE agree on the characters in play): vacuous without ignorecase, proved for ASCII and the regular alphabet, and shown necessary (the real code, like the model, lets get and glob disagree on a child named KELVIN SIGN)', 'strict mode returns the relaxed list (or raises) is proved for sibling-unique names - the scope the property gives strict mode (duplicates among siblings are quantified for relaxed mode only); with duplicate sibling names behind a wildcard strict glob can return a proper sub-list without raising (globStrict_ok_subset_denote is what holds then; witness r->[a->[b], a], pattern **/a/b)']
 PREDICATE_SPEC = True
 RULE = ("shapes up to 5/6 nodes and random shapes up to 8/15 nodes, names from a pool with regex metacharacters, wildcards, quotes, "
-        "backslashes, newline, non-ASCII, duplicates among siblings; patterns of up to 4/6 components over names, wildcards, '**', "
+        "backslashes, newline, non-ASCII (with ignorecase: the letters of the case table incl. the KELVIN/ANGSTROM/OHM signs), duplicates among siblings; patterns of up to 4/6 components over names, wildcards, '**', "
         "'..', '.', '', unknown names, relative and absolute; every query in strict and relaxed mode; wildcard-free queries paired "
         "with get; cache stress: >20 distinct patterns and alternating ignorecase between queries on the shared cache. Distinct = "
         "distinct case; non-trivial = tree has >= 3 nodes.")
@@ -79,11 +93,16 @@ def generate(tier, rng):
                 if "*" not in p and "?" not in p:
                     c["queries"].append({"fn": "get", "start": start, "path": p, "ignorecase": q_ic, "relax": False, "pair": True})
         yield c
+    yield rc.casetable_case()
+    # all of Unicode, judged without the model: history independence (the shared pattern cache), strict within relaxed
+    for _ in range(150 if tier == "quick" else 2000):
+        t = gen.labelled(gen.random_shape(rng, rng.randrange(2, 8 if tier == "quick" else 12)), rng, True)
+        yield rc.unires_history(rng, t)
     for t in trees:
         sep = rng.choice(["/", "/", "/", ";", "::"])
         ic = rng.random() < 0.4
         unique = rng.random() < 0.6
-        names = rc.names_for(rng, t, sep, unique, ic or rng.random() < 0.5, not unique)
+        names = rc.names_for(rng, t, sep, unique, ic or rng.random() < 0.5, not unique, rng.choice(["upper", "re"]))
         c = {"fam": "resolve", "tree": t, "names": names, "sep": sep, "queries": [], "unique": unique, "typed": rc.typed_labels(rng, names),
              "cls": rng.choice([None, None, "len", "falsy", "eq"])}
         labs = gen.tree_labels(t)
@@ -97,8 +116,8 @@ def generate(tier, rng):
                 p = p + sep + rng.choice(["*", "?", "x%d*" % i, "%d?" % i])
             start = rng.choice(labs)
             q_ic = ic if rng.random() < 0.7 else not ic
-            if q_ic and any(ord(ch) > 127 for _, v in names for ch in v):
-                q_ic = False
+            if q_ic and not all(rc.in_alphabet(v) for _, v in names):
+                q_ic = False        # case mapping outside the model's alphabet is CPython's, not modelled
             for relax in (False, True):
                 c["queries"].append({"fn": "glob", "start": start, "path": p, "ignorecase": q_ic, "relax": relax})
             if "*" not in p and "?" not in p:
@@ -106,25 +125,40 @@ def generate(tier, rng):
         yield c
 
 
-def _sibling_unique(case, ic):
-    key = "_su_%s" % ic
-    if key not in case:
-        nm = {k: v for k, v in case["names"]}
+def _sibling_unique(case, ic, key="re"):
+    """sibling names pairwise different - under re.IGNORECASE (`key="re"`: what glob matches, SiblingUniqueRe) or under str.upper()
+    (`key="upper"`: what get compares, SiblingUnique) when `ic`"""
+    k = "_su_%s_%s" % (ic, key)
+    if k not in case:
+        nm = {k_: v for k_, v in case["names"]}
+        fold = (lambda x: x.upper()) if key == "upper" else rc.re_key
 
         def ok(node):
             seen = set()
             for c in node[1]:
                 n = nm.get(c[0], "None")
-                n = n.upper() if ic else n
+                n = fold(n) if ic else n
                 if n in seen:
                     return False
                 seen.add(n)
             return all(ok(c) for c in node[1])
-        case[key] = ok(case["tree"])
-    return case[key]
+        case[k] = ok(case["tree"])
+    return case[k]
+
+
+def _case_agree(case, q):
+    """CaseAgree of C08b: without ignorecase, or no KELVIN/ANGSTROM/OHM sign among the characters of the names and of the path"""
+    if not q["ignorecase"]:
+        return True
+    k = "_regular_names"
+    if k not in case:
+        case[k] = all(rc.regular(v) for _, v in case["names"])
+    return case[k] and rc.regular(q["path"])
 
 
 def judge(case, impl, drv):
+    if case.get("fam") == "unires":
+        return impl == {"ok": True}, True
     if isinstance(impl, dict) and impl.get("skip"):
         return True, True
     if not isinstance(impl, list):
@@ -139,7 +173,8 @@ def judge(case, impl, drv):
                 p_ok = False
             # agreement with glob on wildcard-free paths over sibling-unique, well-formed names
             g = impl[i - 2]                      # the strict glob of the same (start, path, ignorecase)
-            if _sibling_unique(case, q["ignorecase"]) and rc.names_ok(case["names"], case["sep"]) and "**" not in q["path"]:
+            if _sibling_unique(case, q["ignorecase"], "upper") and _case_agree(case, q) and rc.names_ok(case["names"], case["sep"]) \
+                    and "**" not in q["path"]:
                 if "ok" in r and r["ok"] is not None and g != {"ok": [r["ok"]]}:
                     p_ok = False
                 if "err" in r and ("err" not in g or g["err"][0] != r["err"][0]):
@@ -164,6 +199,8 @@ def judge(case, impl, drv):
 
 
 def mirror_spec_ok(case, drv):
+    if case.get("fam") == "unires":
+        return True
     for q, m, s in zip(case["queries"], drv["mirror"], drv["spec"]):
         if q["fn"] == "get":
             if m != s:
